@@ -1034,14 +1034,15 @@ class Server:
                     elif isinstance(result, tuple):
                         cmd, rest = result
                         f = self.commands_mapping.get(cmd)
-                        if f is not None and cmd in ("user", "pass", "abor"):
+                        if f is not None and cmd in ("user", "pass", "abor", "quit"):
                             # handlers run concurrently and user manager or
                             # path io calls may suspend: a login command is
                             # a barrier - it starts when the commands before
                             # it are through, and nothing sent after it is
                             # looked at before the login state is settled.
                             # The same goes for abor: the transfer command
-                            # before it has started its worker by then
+                            # before it has started its worker by then; and
+                            # for quit: the commands before it are answered
                             login_waiting = f, rest
                             connection.restart_offset = 0
                             continue
